@@ -11,8 +11,8 @@ claim('C18',
       'Bounded proof, inductive step: one soxr_output call of the real soxr.c from any API state with a nondeterministic input function (short supply, end, failure at any of <= 4 calls) over the abstract engine: request <= max_ilen, consume-once-in-order (ghost sequence numbers checked inside the engine), no call after end/failure/in error state, error string set.',
       'Trusted: cbmc; abstract engine contract; frames per call <= 3 (4 thorough); datatypes/layout/engine/channels enumerated per obligation.')
 
-for pid in ['C01', 'C02', 'C04', 'C05', 'C06', 'C12', 'C14', 'C16',
-            'C17', 'C19']:
+for pid in ['C01', 'C02', 'C04', 'C05', 'C12', 'C14', 'C16',
+            'C17']:
     na(pid, 'check under construction in this session (breadth-first build order of DESIGN.md section 12); not yet claimed')
 
 claim('C03',
@@ -37,3 +37,10 @@ claim('C13',
 claim('C20',
       'Bounded proof over the real soxr_create/initialise/fatal_error/soxr_clear/soxr_delete0 with every allocation event failing or not independently (symbolic subset) and engine creation failing for any channel: no NULL dereference, error reported, no leak, every engine closed once, delete safe.',
       'Trusted: cbmc; allocation model (typed exact-size malloc + ghost live counter); API layer only in this check: allocation sites inside the engines (cr.c, filter.c, fifo.h, vr32.c) are listed in DESIGN.md section 8 as expected defects and are not yet decided here.')
+
+claim('C19',
+      'Bounded proof over the real soxr-lsr.c on the real soxr.c over the abstract engine: SRC_DATA contract of src_process / src_callback_read from any state, NULL arguments, and the four sample-array helpers for every bit pattern.',
+      'Trusted: cbmc; abstract engine; x87 FIST model; src_ratio constant per obligation; frame totals rely on C03; the ABI-dependent callback cast of src_callback_new is not modelled.')
+claim('C06',
+      'Bounded proof: index exactness of all (de)interleavers for every bit pattern; per-channel routing of frames through one real soxr.c call (ghost sequence numbers carrying the channel) for all layout combinations; distinct engine object per channel.',
+      'Partial: sequential semantics only - the OpenMP interleavings (shared clips/seed) are not decided by this check; engines are abstract (write footprint of real kernels: L3); channels <= 2.')
